@@ -471,7 +471,52 @@ def shrink_quorum(case):
 # ============================================================================ C40 Paxos components
 
 
+def gen_px_acc(rng):
+    """scripted per-tick message batches for the acceptor node of paxos_core"""
+    bals = [[rng.range(0, 3), rng.below(2)] for _ in range(3)]
+    ticks = []
+    for _ in range(rng.range(2, 7)):
+        p1a = [rng.choice(bals) for _ in range(rng.choice([0, 0, 1, 1, 2]))]
+        p2a = []
+        for _ in range(rng.choice([0, 1, 2, 3, 4])):
+            b = rng.choice(bals)
+            p2a.append([b[1], b, rng.below(4), rng.choice([None, 1, 2, 3, 4])])
+        ticks.append({"p1a": p1a, "p2a": p2a})
+    return {"k": "px_acc", "id": rng.below(3), "ticks": ticks}
+
+
+def gen_px_seq(rng):
+    """the proposer node of paxos_core after winning an election with the given quorum logs"""
+    prev = [rng.range(0, 3), 1]
+    logs = []
+    for _ in range(2):
+        entries = []
+        if rng.chance(3, 4):
+            for sl in range(rng.range(1, 4)):
+                if rng.chance(3, 5):
+                    entries.append([sl, [rng.below(prev[0] + 1), rng.below(2)], rng.choice([None, 1, 2, 3])])
+        logs.append({"cp": None, "entries": entries})
+    ticks = [[rng.range(10, 99) for _ in range(rng.below(3))] for _ in range(rng.range(1, 4))]
+    return {"k": "px_seq", "prev": prev, "logs": logs, "ticks": ticks}
+
+
+def px_harness_case(case):
+    """the case fed to harness/h_paxos (px_seq is a scripted run of the real proposer node)"""
+    if case["k"] != "px_seq":
+        return case
+    bal = [case["prev"][0] + 1, 0]
+    ticks = [{"adv_ms": 0}, {"adv_ms": 100, "hb": [case["prev"]]}, {"adv_ms": 4000},
+             {"adv_ms": 10, "p1b": [[a, bal, {"ok": case["logs"][a]["entries"]}] for a in range(2)]}]
+    for ps in case["ticks"]:
+        ticks.append({"adv_ms": 10, "payloads": ps})
+    return {"k": "px_prop", "id": 0, "ticks": ticks}
+
+
 def gen_px(rng, tier):
+    if rng.chance(1, 4):
+        return gen_px_acc(rng)
+    if rng.chance(1, 4):
+        return gen_px_seq(rng)
     if rng.chance(1, 3):
         nt = rng.range(1, 5)
         ticks, hi = [], -1
@@ -497,6 +542,22 @@ def gen_px(rng, tier):
     return {"k": "px_recommit", "f": f, "ballot": [rng.range(3, 5), rng.below(3)], "logs": logs}
 
 
+def px_finding_key(case, r):
+    """known-finding keys of the Paxos cases (r = result of the real proposer node)"""
+    if r is None or "ticks" not in r:
+        return None
+    if case["k"] == "px_seq":
+        vals = {}
+        for t in r["ticks"]:
+            for m in t["p2a"]:
+                vals.setdefault((m[3], tuple(m[2])), set()).add(m[4])
+        if any(len(v) > 1 for v in vals.values()):
+            return "px/slot-reuse-after-leader-change"
+    if case["k"] == "px_prop":
+        return "px/quorum-counts-replies-not-acceptors"
+    return None
+
+
 def g_oN(x):
     return "None" if x is None else "(Some %d)" % x
 
@@ -504,6 +565,55 @@ def g_oN(x):
 def px_term(case, res):
     if "panic" in res or "hang" in res or "crash" in res or "bad_case" in res or "garbled" in res:
         return 3
+    gb = lambda b: "(%d, %d)" % (b[0], b[1])
+    gob = lambda b: "None" if b is None else "(Some %s)" % gb(b)
+    if case["k"] == "px_acc":
+        ticks = vlib.g_list(["(%s, %s)" % (vlib.g_list([gb(b) for b in t["p1a"]]),
+                                             vlib.g_list(["(%d, %s, %d, %s)" % (m[0], gb(m[1]), m[2], g_oN(m[3])) for m in t["p2a"]]))
+                             for t in case["ticks"]])
+        outs = []
+        for t in res["ticks"]:
+            p1 = []
+            for to, b, body in t["p1b"]:
+                if "ok" in body:
+                    r = "(inl %s)" % vlib.g_list(["(%d, (%s, %s))" % (e[0], gb(e[1]), g_oN(e[2])) for e in body["ok"]])
+                else:
+                    r = "(inr %s)" % gob(body["err"])
+                p1.append("(%d, %s, %s)" % (to, gb(b), r))
+            p2 = ["(%d, %d, %s, %s)" % (to, sl, gb(b), "None" if "ok" in body else "(Some %s)" % gob(body["err"]))
+                  for to, sl, b, body in t["p2b"]]
+            outs.append("(%s, %s)" % (vlib.g_list(p1), vlib.g_list(p2)))
+        return "(PaxosCheck.chk_acc %s %s)" % (ticks, vlib.g_list(outs))
+    if case["k"] == "px_prop":
+        # scripted run of the real proposer node: decided slots need Ok replies of f+1 distinct acceptors
+        bal, ticks = None, []
+        for t, o in zip(case["ticks"], res["ticks"]):
+            if o["leader"]:
+                bal = o["leader"][-1]
+            oks = ["(%d, %d)" % (m[0], m[1]) for m in t.get("p2b", []) if "ok" in m[3] and m[2] == bal]
+            ticks.append("(%s, %s)" % (vlib.g_list(oks), vlib.g_list(["%d" % d[0] for d in o["decided"]])))
+        return "(PaxosCheck.chk_dec 1 %s)" % vlib.g_list(ticks)
+    if case["k"] == "px_seq":
+        bal = [case["prev"][0] + 1, 0]
+        logs = vlib.g_list(["(%s, %s)" % (g_oN(l["cp"]), vlib.g_list(["(%d, (%d, %d), %s)" % (e[0], e[1][0], e[1][1], g_oN(e[2])) for e in l["entries"]]))
+                            for l in case["logs"]])
+        mticks = [[]] + case["ticks"]
+        # the leader must have announced exactly its ballot, once, in the election tick
+        pre = res["ticks"][:3]
+        if res["ticks"][3]["leader"] != [bal] or any(t["p2a"] or t["leader"] for t in pre):
+            return 1
+        outs = []
+        for t in res["ticks"][3:]:
+            if any(m[2] != bal or m[1] != 0 for m in t["p2a"]):
+                return 1
+            per = {}
+            for m in t["p2a"]:
+                per.setdefault(m[0], []).append((m[3], m[4]))
+            if sorted(per.keys()) != ([0, 1, 2] if per else []) or any(sorted(map(str, v)) != sorted(map(str, per[0])) for v in per.values()):
+                return 1  # a broadcast goes to the three acceptors alike
+            outs.append(vlib.g_list(["(%d, %s)" % (sl, g_oN(v)) for sl, v in per.get(0, [])]))
+        return "(PaxosCheck.chk_seq 1 %s %s %s %s)" % (gb(bal), logs, vlib.g_list([vlib.g_list(["%d" % p for p in ps]) for ps in mticks]),
+                                                       vlib.g_list(outs))
     if case["k"] == "px_index":
         ticks = vlib.g_list(["(%s, %s)" % (g_oN(t["max"]), vlib.g_list(["%d" % p for p in t["payloads"]])) for t in case["ticks"]])
         outs = vlib.g_list([vlib.g_list(["(%d, %d)" % (s, p) for s, p in o]) for o in res["ticks"]])
